@@ -228,17 +228,31 @@ def run(ctx):
             ctx.holds(r3, f"{WS}::Workspace.combine -> {nm}", f"(join, left['{sec}'], right['{sec}'])")
         else:
             ctx.violated(r3, cb, nm, f"combine does not join section '{sec}' of left and right with the requested mode", found=str(a), node=cb.node)
-    spec = [n for n in ast.walk(cb.node) if isinstance(n, ast.Dict) and len(n.keys) == 4]
-    if spec and {A.const_value(k): A.unparse(v) for k, v in zip(spec[0].keys, spec[0].values)} == {"channels": "new_channels", "measurements": "new_measurements", "observations": "new_observations", "version": "new_version"}:
-        ctx.holds(r3, f"{WS}::Workspace.combine", "result carries all four joined sections")
-    else:
-        ctx.violated(r3, cb, "newspec", "the combined specification does not carry each joined section under its own key", node=cb.node)
+    try:
+        recj = {}
+        def jn(tag):
+            return lambda a, k: (recj.__setitem__(tag, (a, k)) or Poly.atom("J_" + tag))
+        out = {}
+        ext = {"_join_versions": jn("version"), "_join_channels": jn("channels"), "_join_observations": jn("observations"), "_join_measurements": jn("measurements"),
+               "cls": lambda a, k: (out.__setitem__("spec", a[0]) or Obj("RESULT"))}
+        left = {"version": Poly.atom("LV"), "channels": Poly.atom("LC"), "observations": Poly.atom("LO"), "measurements": Poly.atom("LM")}
+        right = {"version": Poly.atom("RV"), "channels": Poly.atom("RC"), "observations": Poly.atom("RO"), "measurements": Poly.atom("RM")}
+        env = {"cls": Obj("cls"), "left": left, "right": right, "join": "none", "merge_channels": False, "validate": True, "Workspace": Obj("Workspace", {"valid_joins": ["none", "outer", "left outer", "right outer"]}), "log": Obj("log")}
+        res = Interp(env, {}, {}, externals=ext).run(A.strip_docstring(cb.node.body))
+        sp = out.get("spec", {})
+        got = {k: str(v) for k, v in sp.items()} if isinstance(sp, dict) else sp
+        if got == {"channels": "J_channels", "measurements": "J_measurements", "observations": "J_observations", "version": "J_version"} and isinstance(res, Obj) and res.name == "RESULT":
+            ctx.holds(r3, f"{WS}::Workspace.combine", "result carries all four joined sections (interpreted)")
+        else:
+            ctx.violated(r3, cb, "combined specification", "the combined specification does not carry each joined section under its own key", found=str(got), node=cb.node)
+    except (Undecided, KeyError, TypeError) as e:
+        ctx.unrecognised(r3, cb, "combine", f"not interpretable: {e}")
 
     # ------------------------------------------------------------ R4 by interpretation
     pr = ws.methods["_prune_and_rename"]
     _namespaces(ctx, r4, pr)
     pre_loops = [n for n in ast.walk(pr.node) if isinstance(n, ast.For) and any(isinstance(r, ast.Raise) for r in ast.walk(n))]
-    newspec_line = min([n.lineno for n in ast.walk(pr.node) if isinstance(n, ast.Assign) and any(isinstance(t, ast.Name) and t.id == "newspec" for t in n.targets)] or [0])
+    newspec_line = min([n.lineno for n in ast.walk(pr.node) if isinstance(n, ast.Assign) and isinstance(n.value, ast.Dict) and any(A.const_value(k) == "channels" for k in n.value.keys if k is not None)] or [0])
     if len(pre_loops) >= 5 and all(l.lineno < newspec_line for l in pre_loops) and all(_exc(r) == "InvalidWorkspaceOperation" for l in pre_loops for r in ast.walk(l) if isinstance(r, ast.Raise)):
         ctx.holds(r4, f"{WS}::_prune_and_rename", f"{len(pre_loops)} unknown-name checks precede the rebuild")
     else:
@@ -256,18 +270,34 @@ def run(ctx):
 
     # ------------------------------------------------------------ R5
     so = ws.methods["sorted"]
-    sorts = {}
-    for c in A.calls_in(so.node):
-        if A.call_attr(c) == "sort":
-            key = next((k.value for k in c.keywords if k.arg == "key"), None)
-            sorts[A.unparse(c.func.value)] = A.unparse(key.body) if isinstance(key, ast.Lambda) else None
-    want = {"newspec['channels']": "e['name']", "channel['samples']": "e['name']", "sample['modifiers']": "(e['name'], e['type'])", "newspec['measurements']": "e['name']",
-            "measurement['config']['parameters']": "e['name']", "newspec['observations']": "e['name']"}
-    for lst, key in want.items():
-        if sorts.get(lst) == key:
-            ctx.holds(r5, f"{WS}::Workspace.sorted: {lst}", f"sorted by {key}")
-        else:
-            ctx.violated(r5, so, f"{lst}.sort", f"`{lst}` is not sorted by {key}: the result is not canonical under permutation of that list", expected=key, found=str(sorts.get(lst)), node=so.node)
+    try:
+        wsd = {
+            "channels": [
+                {"name": "zc", "samples": [{"name": "zs", "data": [], "modifiers": [{"name": "b", "type": "t2", "data": None}, {"name": "b", "type": "t1", "data": None}, {"name": "a", "type": "t9", "data": None}]}, {"name": "as", "data": [], "modifiers": []}]},
+                {"name": "ac", "samples": [{"name": "s", "data": [], "modifiers": []}]},
+            ],
+            "measurements": [{"name": "zm", "config": {"poi": "p", "parameters": [{"name": "zp"}, {"name": "ap"}]}}, {"name": "am", "config": {"poi": "p", "parameters": []}}],
+            "observations": [{"name": "zc", "data": []}, {"name": "ac", "data": []}],
+            "version": "1.0.0",
+        }
+        out = {}
+        Interp({"cls": Obj("cls"), "workspace": wsd}, {}, {}, externals={"cls": lambda a, k: (out.__setitem__("spec", a[0]) or Obj("RESULT"))}).run(A.strip_docstring(so.node.body))
+        sp = out["spec"]
+        checks = [
+            ("channels", [c["name"] for c in sp["channels"]], ["ac", "zc"]),
+            ("samples", [x["name"] for x in sp["channels"][1]["samples"]], ["as", "zs"]),
+            ("modifiers (name, type)", [(x["name"], x["type"]) for x in sp["channels"][1]["samples"][1]["modifiers"]], [("a", "t9"), ("b", "t1"), ("b", "t2")]),
+            ("measurements", [x["name"] for x in sp["measurements"]], ["am", "zm"]),
+            ("parameters", [x["name"] for x in sp["measurements"][1]["config"]["parameters"]], ["ap", "zp"]),
+            ("observations", [x["name"] for x in sp["observations"]], ["ac", "zc"]),
+        ]
+        for what, got, want in checks:
+            if got == want:
+                ctx.holds(r5, f"{WS}::Workspace.sorted: {what}", f"{want}")
+            else:
+                ctx.violated(r5, so, f"sorted: {what}", f"the {what} of a sorted workspace are not in canonical order: the result depends on the listing order of the input", expected=str(want), found=str(got), node=so.node)
+    except (Undecided, KeyError, TypeError, IndexError) as e:
+        ctx.unrecognised(r5, so, "sorted", f"not interpretable: {e}")
 
 
 def _exc(r):
